@@ -352,6 +352,18 @@ def replay_lin(p, exp):
                 a, b = conds["constraint_ode_ts1"], conds["constraint_residual(residual_from_ode)"]
                 same = all(np.array_equal(np.asarray(x), np.asarray(y)) for x, y in [(a.A, b.A), (a.noise.mean_flat, b.noise.mean_flat), (a.noise.cholesky_flat, b.noise.cholesky_flat)])
                 rec.equal(f"{kind}:constraint_ode_ts1", "identical-to-residual-constraint", same, True)
+            # a state that lacks the highest output coefficient u^(J+L) cannot support this lift order: every
+            # constraint constructor must reject it (at construction or at the first linearisation), never return numbers
+            need = J + L + 1
+            if len(tcoeffs) >= need and need >= 2:
+                rv_short = ssm.prior_wiener_integrated(tcoeffs[: need - 1]).init
+                why = f"the ODE lifted by {L} has the output coefficient u^({J + L}) but the state carries only {need - 1} coefficients"
+                for site, mk in [("constraint_ode_ts0", lambda: ssm.constraint_ode_ts0(odeL)), ("constraint_ode_ts1", lambda: ssm.constraint_ode_ts1(odeL))]:
+                    def short(mk=mk):
+                        c = mk()
+                        cond = c.linearize(rv_short, c.init_linearization(), damp=damp, t=t)[0]
+                        return [np.asarray(x) for x in (cond.A, cond.noise.mean_flat)]
+                    rec.must_raise(f"{kind}:{site}", "state-too-short-accepted", short, why)
             # zeroth order
             try:
                 c0 = lin(ssm.constraint_ode_ts0(odeL))
